@@ -48,6 +48,11 @@ fn upcast_tokens(
 }
 
 pub fn observe_tg(reg: &PortableRegistry, spec: &SettingsSpec) -> TgObs {
+    if reg.types.len() <= 200 {
+        crate::util::inflight_ctx(&json!({"registry": reg, "settings": spec}));
+    } else {
+        crate::util::inflight_ctx(&json!({"registry": "large", "types": reg.types.len(), "settings": spec}));
+    }
     let (settings, outs) = sets::build(spec);
     let gen = observe(|| {
         let g = TypeGenerator::new(reg, &settings);
